@@ -65,6 +65,11 @@ CHECKS["C13"] = ("exploration",
   "The sorting network is decided for every length <= L by the zero-one principle (all 2^L key vectors, payload = input position must travel with its key). For every size pair (n,m) <= N, several key types and payload shapes, the for-join program is run on all pairs of strictly ascending key arrays over a 6-value domain (incl. 0 and MAX, plus every zero-divisor position so that panics in non-joined iterations would show) and compared with the reference interpreter; the join built-in is run on all pairs of non-decreasing arrays (same-side duplicates) and must flag exactly the common keys once, zero the rest and sort the flags with one data-independent orientation.",
   "Size bounds n,m <= 4-6, key domains of 4-6 values; multi-bit keys beyond the domains rely on the zero-one argument for the networks.", "DESIGN.md §4 C13")
 
+CHECKS["C17"] = ("exploration",
+  "exhaustive mutation enumeration: every rule-breaking edit (30 kinds) at every applicable site of every accepted base program, decided by the real type checker",
+  "All base programs (families S, D, P and an enum/struct match program; fully annotated) are first shown to be accepted; then for each of 30 edit kinds covering the listed static rules every applicable site is mutated at AST level (so the mutant still parses) and the real checker must return a non-empty list of type errors. Each mutator is built so that the edit provably violates its rule (fresh nominal type for type clashes, globally fresh names, syntactic evidence of a later assignment for dropped mut).",
+  "Mutants that are rejected for a different reason than intended still count as rejected; the per-rule table in the evidence shows mutants/rejected per rule.", "DESIGN.md §4 C17")
+
 NOT_YET = {
 }
 
